@@ -324,7 +324,7 @@ theorem decode_time_is_castOnly (c : Cfg) (p : TPath) (name kind : String) (s : 
   rw [hrow]
   simp only [hd]
 
-/-- the casters still go through the modelled parsers (`utils.ParseYAMLInt` / `utils.ParseYAMLFloat`, utils/yamlnumber.go) -/
+/-- the casters still go through the modelled parsers (`utils.ParseYAMLInt` / `utils.ParseYAMLFloat`, utils/stringutils.go) -/
 theorem casters_are_modelled :
     CV.Gen.c08_casterCalls = [
       ("toInt", ["int", "int64", "strconv.Atoi", "utils.ParseYAMLInt"]),
